@@ -1,7 +1,7 @@
 /-
 Race exactness, part 9: the thread epilogue keeps `RC`.  The notification of the joiner (`notifyEffect` on the
-`JoinHandle` notify) publishes the thread's final causality and lets every thread that is past the branch point of
-the `join` of this thread acquire it at once.
+`JoinHandle` notify) publishes the thread's final causality in the object's clock; the joiner acquires it in the
+second half of its wait (`Notify::notify` itself only wakes: repair of finding F26).
 -/
 import LoomVerif.Proofs.RaceOps3
 
@@ -25,19 +25,12 @@ theorem notify_transfer (hRC : RC w s) (hact : w.tid < w.ctl.length) (hnone : op
     (hp : w'.prog = w.prog) (hs : w'.spawned = w.spawned) (hn : nthr w' = nthr w)
     (hctl : ∀ i, w'.ctlOf i = if i = w.tid then { w.ctlOf w.tid with fin := 10 } else w.ctlOf i)
     {X : Obj} (hobjs : w'.exec.objs = w.exec.objs.set n X) (hX : hbOf X = tcaus w w.tid)
-    (hcaus : ∀ i, tcaus w' i =
-      if i < nthr w ∧ i ≠ w.tid ∧ topo w i = some n then (tcaus w i).join (tcaus w w.tid) else tcaus w i)
+    (hcaus : ∀ i, tcaus w' i = tcaus w i)
     (hrel : ∀ i, trel w' i = trel w i) (htopo : ∀ i, topo w' i = topo w i) :
     TwinInv w' ∧ LinkT w' σT := by
   have hnlt := sp_lt hRC.r hmem
   have hpt : pend w w.tid = none := by
     apply pend_notJoin; intro b' hb'; rw [opAtI_tid, hnone] at hb'; cases hb'
-  -- the threads that acquire at once are past the branch point of the `join` of this thread
-  have hA : ∀ i, i < nthr w → i ≠ w.tid → topo w i = some n → pend w i = some n := by
-    intro i hi hne ho
-    rcases hRC.inv.jo i b w.tid n hi ho hmem hne with h | h
-    · exact h
-    · omega
   have hpend : ∀ i, pend w' i = pend w i := by
     intro i
     by_cases e : i = w.tid
@@ -94,7 +87,7 @@ theorem notify_transfer (hRC : RC w s) (hact : w.tid < w.ctl.length) (hnone : op
         have := hRC.r.y.spn _ _ hm hmem rfl
         simpa using this
       subst hj
-      rw [if_pos rfl, hfin, if_pos rfl, if_pos (Nat.le_refl _), hcaus, if_neg (fun hh => hh.2.1 rfl)]
+      rw [if_pos rfl, hfin, if_pos rfl, if_pos (Nat.le_refl _), hcaus]
     · rw [if_neg e, hRC.inv.nhb b' j n' hm]
       have hj : j ≠ w.tid := by
         intro ej
@@ -105,12 +98,6 @@ theorem notify_transfer (hRC : RC w s) (hact : w.tid < w.ctl.length) (hnone : op
       rw [hfin, if_neg hj]
       by_cases h10 : 10 ≤ fin w j
       · rw [if_pos h10, if_pos h10, hcaus]
-        rw [if_neg]
-        intro hh
-        have hjlt := (hRC.r.y.sp b' j n' hm).1
-        have h1 := hA j hh.1 hh.2.1 hh.2.2
-        rw [pend_none_of_fin hRC hjlt (by omega)] at h1
-        cases h1
       · rw [if_neg h10, if_neg h10]
   · intro b' j n' hm
     rw [hs] at hm; exact hRC.inv.sp0 b' j n' hm
@@ -131,24 +118,11 @@ theorem notify_transfer (hRC : RC w s) (hact : w.tid < w.ctl.length) (hnone : op
   · intro i hi
     rw [hn] at hi
     rw [hcaus]
-    split
-    · exact le_trans (hLT.lo i hi) (le_join_left _ _)
-    · exact hLT.lo i hi
+    exact hLT.lo i hi
   · intro i hi
     rw [hn] at hi
     have hold := hLT.hi i hi
     rw [hcaus]
-    split
-    · next hh =>
-      have hpi := hA i hh.1 hh.2.1 hh.2.2
-      have h1 : pendHb w i = VV.zero := by unfold pendHb; rw [hpi]; exact hhbn
-      have h2 : pendHb w' i = tcaus w w.tid := by
-        unfold pendHb; rw [hpend, hpi]
-        show objHb w'.exec.objs n = _
-        rw [hhb, if_pos rfl]
-      rw [h1, join_zero] at hold
-      rw [h2]
-      exact join_mono hold (le_refl _)
     · have hmono : (pendHb w i).le (pendHb w' i) := by
         unfold pendHb
         rw [hpend]
@@ -222,8 +196,7 @@ theorem quiet_done (hRC : RC w s) (hact : w.tid < w.ctl.length) (hpend : pend w 
 /-- the thread entries after `Notify::notify` on object `o` -/
 def notF (w : World) (o : Nat) : Nat → Thread → Thread := fun i th =>
   if i = w.tid then th
-  else if th.operation.any (fun op => op.obj == o) then
-    ({ th with causality := th.causality.join w.ths.activeT.causality }).wake
+  else if th.operation.any (fun op => op.obj == o) then th.wake
   else th
 
 theorem any_obj (th : Thread) (o : Nat) :
@@ -370,19 +343,13 @@ theorem clk_epilogue (hRC : RC w s) (hact : w.tid < w.ctl.length) (hnone : opAt 
             · intro i
               show (((W2 w _ (notF w n)).ths.get i).causality) = _
               rw [hget]
-              by_cases hi : i < nthr w
-              · rw [if_pos hi]
-                unfold notF
-                by_cases e : i = w.tid
-                · rw [if_pos e, if_neg (fun hh => hh.2.1 e)]; rfl
-                · rw [if_neg e]
-                  by_cases ha : (w.ths.get i).operation.any (fun op => op.obj == n) = true
-                  · rw [if_pos ha, if_pos ⟨hi, e, (any_obj _ _).1 ha⟩]
-                    have := wake_ckey { w.ths.get i with
-                      causality := (w.ths.get i).causality.join w.ths.activeT.causality }
-                    exact congrArg (·.1) this
-                  · rw [if_neg ha, if_neg (fun hh => ha ((any_obj _ _).2 hh.2.2))]; rfl
-              · rw [if_neg hi, if_neg (fun hh => hi hh.1)]; rfl
+              split
+              · unfold notF; split
+                · rfl
+                · split
+                  · exact congrArg (·.1) (wake_ckey _)
+                  · rfl
+              · rfl
             · intro i
               show (((W2 w _ (notF w n)).ths.get i).released) = _
               rw [hget]
